@@ -43,6 +43,8 @@ ASSUMPTIONS = [
     "are fetchable poms and fewer than MaxImports); the composition over whole lineages (interpolation sits between merge and "
     "dedupe in the Go code, Maven selects on the written text) is decided by the direct oracle Go vs specification, not a theorem",
     "OS family is a single value of the settings (Maven derives several families from os.name)",
+    "C15_pipeline_total assumes that the JDK clause of Profile.activated (Maven version-constraint code, a parameter of the "
+    "model) returns a value or an error; C15_pipeline_total_no_jdk needs no assumption when no profile states a jdk condition",
     "where Maven's outcome rests on null versus empty (a classifier or scope written but interpolating to the empty string "
     "meeting the same identity without it) the specification makes no claim (reason 11 / 2); two such lineages are recorded "
     "in known/C15.jsonl as outside_subset with what Maven 3.8.7 and deps.dev return",
@@ -53,7 +55,9 @@ MANIFEST = dict(
     text=("Executable model of util/maven (interpolating with its resolving set, propertyMap, MergeParent, Profile.activated, "
           "MergeProfiles, Interpolate, ProcessDependencies with MaxImports, the mergeParents driver) with theorems for ALL property "
           "tables and strings: interpolation terminates within the explicit bound S(size dict), never panics, leaves absent and "
-          "cyclic placeholders verbatim with the flag false; and, against an independent declarative specification of Maven's "
+          "cyclic placeholders verbatim with the flag false; the WHOLE pipeline (MergeProfiles, Profile.activated, mergeParents, "
+          "Interpolate, ProcessDependencies) returns a value or an error for all projects, repositories and settings, for every "
+          "value of MaxImports / MaxParent (C15_pipeline_total, assuming only that the JDK version-constraint oracle does); and, against an independent declarative specification of Maven's "
           "rules, property lookup priority, first-declaration-wins selection (equal to Maven's exactly when no POM repeats an "
           "identity), fill-in only where empty, the import queue as depth-first first-wins under MaxImports. The unrestricted "
           "refinement is REFUTED by six witness lineages "
